@@ -1,7 +1,7 @@
 """C09 — far-away parts and the early-exit shortcuts do not change the answer."""
 from . import relprops, relrun
 LEVEL = 'proof'
-W = {'rect': 0.25, 'oct': 0.35, 'share': 0.1, 'lat': 0.1, 'gp': 0.15, 'straddle': 0.25, 'boxes': 0.1, 'abut': 0.08}
+W = {'rect': 0.25, 'oct': 0.35, 'share': 0.1, 'lat': 0.1, 'gp': 0.15, 'straddle': 0.4, 'boxes': 0.1, 'abut': 0.08}
 
 
 def run(rep, tier, seed):
